@@ -729,6 +729,9 @@ def unpack_dataclass(spec: ValueSpec) -> Optional[Expression]:
                 decoder=spec.builder.decoder,
             )
             != method_name
+            # a dialect-specific build goes to the per-dialect cache, so the
+            # default method of the class is not the one being built now
+            or spec.builder.dialect is not None
         ):
             builder = spec.builder.__class__(
                 spec.origin_type,
@@ -834,11 +837,14 @@ def unpack_special_typing_primitive(spec: ValueSpec) -> Optional[Expression]:
                 get_class_that_defines_method(method_name, method_loc)
                 != method_loc
                 # not hasattr(spec.builder.cls, method_name)
-                and spec.builder.get_unpack_method_name(
-                    format_name=spec.builder.format_name,
-                    decoder=spec.builder.decoder,
+                and (
+                    spec.builder.get_unpack_method_name(
+                        format_name=spec.builder.format_name,
+                        decoder=spec.builder.decoder,
+                    )
+                    != method_name
+                    or spec.builder.dialect is not None
                 )
-                != method_name
             ):
                 builder = spec.builder.__class__(
                     spec.builder.cls,
